@@ -25,6 +25,9 @@ CLAIMED = {
  "C08": ("deterministic simulation: seeded arrival histories over 1-5 SSRCs from a faulty link, report builds placed anywhere with any maximum size; interceptor path under the simrt scheduler with clock jumps; independent RFC 8888 decoder + reference stream model",
          "Seeded exploration of rfc8888.Recorder.BuildReport (direct, all maximum sizes incl. ones that cannot hold the headers, report clock before/after arrival clock) and of the real rfc8888.SenderInterceptor (reader goroutine, unbuffered hand-off, ticker on the fake clock, SenderNow with jumps, failing reader): loss, reordering, duplicates, wrap, gaps up to 70 s. Each report is marshalled, decoded by an independent decoder written from RFC 8888 (pion's Unmarshal must agree) and compared per stream with a reference model: contiguous range ending at the highest received number, received <=> first copy arrived and not yet acknowledged in a gap-free prefix, offset = floor(1024 x (report - first arrival)) by exact integer arithmetic with 0x1FFE/0x1FFF, never received->lost, omissions only as truncation by the size limit (newest kept), marshalled size <= maximum whenever it can hold the per-stream headers.",
          "Trusted: the independent decoder and the reference model; an offset one unit low is accepted only when 1024 x elapsed is an exact integer (float floor); a stream's outstanding packets may be dropped when its equal share of the budget is at most one report. Sampling, not proof.", "DESIGN.md §5 C08"),
+ "C04": ("deterministic simulation with -race: writers x per-NACK resend goroutines x Unbind/Close under the simrt scheduler, plan-controlled pool recycling, stalled downstream writer, callers scribbling their buffers; history oracle (deep-copy equality + retransmittable-interval rule)",
+         "Seeded exploration with the race detector on: 1-3 local streams (RTX or not, three padding forms, sizes 1..32768, DisableCopy), writer goroutines that scribble header/payload/CSRC/extension bytes as soon as Write returns, 1-2 RTCP read loops delivering NACKs (sent, never-sent, out-of-window, foreign, repeated numbers), a lifecycle goroutine (Unbind/Close), every interleaving at lock/yield points and whether a released pool buffer is recycled chosen by the plan. Every retransmission must equal the harness's deep copy of the original (plain or RFC 4588 form); per requested number: exactly m retransmissions if it was retransmittable during the whole handling of the NACK, none if it never was, either otherwise (unwrapped sequence arithmetic).",
+         "Trusted: the history oracle, rtcp.Marshal for the injected NACKs, the race detector. One open known finding (DisableCopy ignores negotiated RTX). Sampling, not proof.", "DESIGN.md §5 C04"),
 }
 NA = {
  "C20": "pure single-threaded functions of their inputs (sequence unwrapping, NTP conversion): no schedule, clock, fault, I/O or second party for a simulator to control; deciding them is input enumeration/property-based testing, a different technique (they run as real code inside the C05/C07/C08/C09/C19 scenarios).",
